@@ -117,40 +117,93 @@ CRLF_MOD = 8
 REUSE_MOD = 4  # one call in four (chosen by a hash of the rule text and the modes, so a replay makes the same choice)
 
 
-def _reuse_selected(rule_path, mode, search, only_addr):
-    import zlib
+LIBCFG_MOD = 8    # one macro-free call in eight gets a complete rule file (with a config block) as an extra macro library
+DEBUGLOG_MOD = 16  # one call in sixteen runs with the library logger at DEBUG level
 
+
+def _selector(rule_path, mode, search, only_addr):
+    """A number derived from the rule text and the modes: the variations above are a function of the call, not of chance."""
     try:
         with open(rule_path, "rb") as f:
             h = zlib.crc32(f.read())
     except OSError:
-        return False
-    return (h + zlib.crc32(f"{mode}|{search}|{only_addr}".encode())) % REUSE_MOD == 0
+        return 7
+    return (h + zlib.crc32(f"{mode}|{search}|{only_addr}".encode())) & 0x7FFFFFFF
+
+
+_LIB_WITH_CONFIG = None
+
+
+def _library_with_config():
+    """A complete rule file used as a macro library: it has a config block of its own (which concerns only that file's own
+    pattern), an unused macro and a pattern.  Passing it through `macros=` must not change anything for a rule that uses no
+    macro at all."""
+    global _LIB_WITH_CONFIG
+    s = scratch()
+    if _LIB_WITH_CONFIG is None or not os.path.exists(_LIB_WITH_CONFIG) or os.path.dirname(_LIB_WITH_CONFIG) != s.dir:
+        _LIB_WITH_CONFIG = s.write("zz_library_rule.yaml", dump_yaml({
+            "config": {"mnemonics-full-match": False, "operands-full-match": False, "style": "att"},
+            "macros": [{"name": "@zz_unused_library_macro_", "pattern": "zzq"}],
+            "pattern": ["zzq"]}))
+    return _LIB_WITH_CONFIG
 
 
 def match_files(rule_path, input_path, mode="list", search="all", only_addr=False, macros=None, binary=False, want_regex=False):
+    import logging
+
+    selector = _selector(rule_path, mode, search, only_addr)
+    extra_lib = False
+    if macros is None and LIBCFG_MOD and selector % LIBCFG_MOD == 1:
+        try:
+            with open(rule_path, "rb") as f:
+                extra_lib = b"@" not in f.read()  # macro-free rules only: with macro files given, an '@' means something
+        except OSError:
+            extra_lib = False
+        if extra_lib:
+            macros = [_library_with_config()]
+    from jasm.logging_config import logger as jasm_logger  # the library's own logger object (its level is set explicitly)
+
+    old_level = jasm_logger.level
+    debug = DEBUGLOG_MOD and selector % DEBUGLOG_MOD == 2
+    if debug:
+        jasm_logger.setLevel(logging.DEBUG)  # the answer must not depend on how much is logged
     try:
-        mop = MasterOfPuppets(
-            MatchConfig(
-                pattern_pathstr=rule_path,
-                input_file=input_path,
-                input_file_type=InputFileType.binary if binary else InputFileType.assembly,
-                return_only_address=only_addr,
-                return_mode=RM[mode],
-                matching_mode=SM[search],
-                macros=macros,
+        def build(m_, s_, o_):
+            return MasterOfPuppets(
+                MatchConfig(
+                    pattern_pathstr=rule_path,
+                    input_file=input_path,
+                    input_file_type=InputFileType.binary if binary else InputFileType.assembly,
+                    return_only_address=o_,
+                    return_mode=RM[m_],
+                    matching_mode=SM[s_],
+                    macros=macros,
+                )
             )
-        )
+
+        mop = build(mode, search, only_addr)
         res = mop.perform_matching()
-        if REUSE_MOD and _reuse_selected(rule_path, mode, search, only_addr):
+        if REUSE_MOD and selector % REUSE_MOD == 0:
             # Asking the same MasterOfPuppets again must give the same answer (C14: repeating an operation gives the same
             # result; holds on the pinned tree for every mode).  A difference is reported as an exception outcome, which
             # every check treats as a deviation.
             res2 = mop.perform_matching()
             if res2 != res:
                 return ("exc", "SecondCallOnSameInstanceDiffers", ("first=%r second=%r" % (res, res2))[:300])
+            if mode in ("bool", "list"):
+                # ... and so must asking it another question: the modes are read from its public match_config when it is asked
+                # (asked for what says most: every match with its full text - unless that is what it was constructed for)
+                m2, s2, o2 = ("list", "all", False) if (mode, search, only_addr) != ("list", "all", False) else ("list", "first", True)
+                mop.match_config.return_mode, mop.match_config.matching_mode, mop.match_config.return_only_address = RM[m2], SM[s2], o2
+                got = mop.perform_matching()
+                want = build(m2, s2, o2).perform_matching()
+                if got != want:
+                    return ("exc", "ModeSwitchOnSameInstanceDiffers", ("constructed %s/%s/%s then asked %s/%s/%s: %r, a fresh instance: %r" % (mode, search, only_addr, m2, s2, o2, got, want))[:300])
     except (Exception, AssertionError) as exc:  # noqa: BLE001 - outcome classification is the point
         return classify_exc(exc)
+    finally:
+        if debug:
+            jasm_logger.setLevel(old_level)
     if want_regex:
         return ("ok", res, mop.regex_rule)
     return ("ok", res)
